@@ -15,7 +15,7 @@ DOC = {
         'C10.R1': 'codec pairing: path/base dir to_escaped_string <-> from_escaped_string; command arg::join <-> arg::split; timestamp format(TIMESTAMP_FMT) <-> parse_from_str(TIMESTAMP_FMT); hash Display <-> FromStr; serde impls of Path/Arg use the same pair',
         'C10.R2': 'framing: the decoder input for paths and the base dir is not derived from str::trim / trim_start / trim_end (Unicode white space)',
         'C10.R3': 'read_paths accepts a path line only if it ends with the line terminator',
-        'C10.R5': 'the command line codec of the header (arg::join / arg::split) is consistent (re-evaluates C17.R1, C17.R2, C17.R4, C17.R5)',
+        'C10.R5': 'the command line codec of the header (arg::join / arg::split) is consistent (re-evaluates C17.R1, C17.R2, C17.R3, C17.R4, C17.R5)',
         'C10.R4': 'errors stop the group iterator and are returned: TextReportIterator::next propagates read_paths errors; run_dedupe records the error, stops with take_while and returns it',
     },
     'not_decided': 'correctness of the stfu8, serde_json and chrono crates; the equality itself for all strings (a reference model would be needed)',
@@ -343,6 +343,7 @@ def r5(ctx, lib):
     before = len(ctx.obligations)
     c17.r1(ctx, lib)
     c17.r2(ctx, lib)
+    c17.r3(ctx, lib)
     c17.r4(ctx, lib)
     c17.r5(ctx, lib)
     for o in ctx.obligations[before:]:
